@@ -1,5 +1,5 @@
 import ScVerif.C13.Ctx
-import ScVerif.C13.Order
+import ScVerif.C13.HoldLemmas
 /-!
 # C13 — what of the caller's context crosses the boundary
 
@@ -32,8 +32,8 @@ theorem C13_ctx_transcript_eq (shape : Shape) (ctx : CallerCtx) (h : Handler) (c
     Wrap.runCtx shape ctx h cs reuse = GrpcRef.runCtx shape ctx h cs reuse := by
   have hopen : Wrap.open shape = .ok := by cases shape <;> decide
   unfold Wrap.runCtx Wrap.runCtxCfg GrpcRef.runCtx
-  simp only [hopen, C13_ctx_server_ctx_eq]
-  exact congrArg _ (go_eq _ reuse {} false (.running _) (clientOps shape cs) {} rel_init Wrap.heapInv_init)
+  simp only [hopen, C13_ctx_server_ctx_eq, holds_current, canon_eq_statusEv]
+  exact congrArg _ (congrArg _ (go_eq _ reuse {} false (.running _) (clientOps shape cs) {} rel_init Wrap.heapInv_init))
 
 /-- **The request metadata the handler sees is the client's outgoing metadata**, for every call shape,
 caller context, handler and client script: the first entry of the handler's view is
@@ -90,9 +90,53 @@ theorem C13_ctx_no_goroutine_left (shape : Shape) (ctx : CallerCtx) (h : Handler
   have hc' : (Wrap.runCtx shape ctx h cs reuse).complete = true := by
     unfold Wrap.runCtx Wrap.runCtxCfg
     simp only [hopen, C13_ctx_server_ctx_eq, ctxView]
-    rw [complete_sev _ _ (by simp), complete_sevIf _ _ _ (by simp), complete_sevIf _ _ _ (by simp)]
+    rw [complete_sev _ _ (by simp), complete_sevIf _ _ _ (by simp), complete_sevIf _ _ _ (by simp),
+      complete_hold _ _ _ (canon_ne_stuck _)]
     exact hc
   simpa [Transcript.complete] using hc'
+
+/-- **The single response comes only with an OK status.** For a method without server streaming (unary,
+also through NewStream, and client streaming), on every caller context and for every handler: if the
+handler returns an error, the client is never given a response message — also when the handler had
+already sent one (`SendAndClose`, then an error): the `RecvMsg` that would have delivered it returns the
+error, as over gRPC. -/
+theorem C13_single_response_only_with_ok (shape : Shape) (ctx : CallerCtx) (h : Handler) (cs : List COp)
+    (reuse : Bool) (hshape : shape ≠ .sstream ∧ shape ≠ .bidi)
+    (herr : (h (GrpcRef.serverCtx ctx)).2 ≠ .ok) :
+    (Wrap.runCtx shape ctx h cs reuse).clientMsgs = [] := by
+  have hopen : Wrap.open shape = .ok := by cases shape <;> decide
+  have hh : Wrap.holds Cfg.current shape = true := by
+    cases shape <;> first | rfl | exact absurd rfl hshape.1 | exact absurd rfl hshape.2
+  unfold Wrap.runCtx Wrap.runCtxCfg
+  simp only [hopen, C13_ctx_server_ctx_eq, hh]
+  have hb : ((h (GrpcRef.serverCtx ctx)).2 != Fin.ok) = true := by simpa using herr
+  simp only [ctxView, sev, sevIf, hold, hb, Bool.and_self, if_true, Transcript.clientMsgs]
+  split <;> split <;> simp only [filterMap_msg_holdEv]
+
+/-- The theorem above is not vacuous: a client-streaming handler that answers and then fails; the client
+reads the error twice and no message. -/
+example : (Wrap.runCtx .cstream {} (fun _ => ([.recv, .recv, .send 7], .status 9 "e0"))
+    [.send 1, .closeSend, .recv, .recv]).client = [.sent, .closed, .fin 9 "e0", .fin 9 "e0"] := by
+  have hopen : Wrap.open .cstream = .ok := by decide
+  simp only [Wrap.runCtx, Wrap.runCtxCfg, hopen, clientOps]
+  simp [go, ctxView, sev, sevIf, cev, endT, hold, holdEv, Wrap.holds, Cfg.current, Wrap.impl, Wrap.terminal,
+    Wrap.close, Wrap.canon, Wrap.startStream, Wrap.xfer_closed, Wrap.xfer_ctxErr, Wrap.sendHeaderIfNeeded,
+    Wrap.sendHeader]
+
+/-- The defect repaired by 14df317, on the model of the code before it: the client of a client-streaming
+call was given the response although the handler went on to return an error; gRPC gives the error. -/
+theorem C13_legacy_response_before_error :
+    ∃ ss fin cs, WFScripts .cstream ss fin cs = true ∧
+      (Wrap.runCfg { Cfg.current with holdResponse := false } .cstream [] ss fin cs).client ≠
+        (GrpcRef.run .cstream [] ss fin cs).client := by
+  refine ⟨[.recv, .recv, .send 7], .status 9 "e0", [.send 1, .closeSend, .recv, .recv], ?_, ?_⟩
+  · simp [WFScripts, conforms, clientOps, sync, singleResponseC, localAfterSend]
+  · have hopen : Wrap.open .cstream = .ok := by decide
+    simp only [Wrap.runCfg, GrpcRef.run, hopen, clientOps]
+    simp [go, sev, cev, endT, hold, holdEv, Wrap.holds, GrpcRef.holds, GrpcRef.statusEv, GrpcRef.wireStatus,
+      Cfg.current, Wrap.impl, GrpcRef.impl, Wrap.terminal, GrpcRef.terminal, GrpcRef.writeStatus, Wrap.close,
+      Wrap.canon, Wrap.xfer_closed, Wrap.xfer_ctxErr, Wrap.sendHeaderIfNeeded, Wrap.sendHeader,
+      GrpcRef.beforeData]
 
 /-- The defect repaired by 8cf1112, on the model of the code before it: the handler's context kept the
 client's outgoing metadata (a downstream call made with it would transmit it a second hop); a real
@@ -103,6 +147,7 @@ theorem C13_legacy_outgoing_leaks :
   refine ⟨.bidi, { outgoing := some [("u", "1")] }, fun _ => ([], .ok), [], ?_⟩
   have hopen : Wrap.open .bidi = .ok := by decide
   simp only [Wrap.runCtxCfg, GrpcRef.runCtx, hopen, clientOps]
-  simp [go, ctxView, sev, sevIf, endT, Wrap.startStream, GrpcRef.serverCtx, Cfg.current, cloneMD]
+  simp [go, ctxView, sev, sevIf, endT, Wrap.startStream, GrpcRef.serverCtx, Cfg.current, cloneMD, hold,
+    Wrap.holds, GrpcRef.holds]
 
 end ScVerif.C13
